@@ -36,6 +36,14 @@ type Result struct {
 	Sample any `json:"sample,omitempty"`
 	// Log is the event log of the run (determinism self-test hashes it).
 	LogHash string `json:"loghash,omitempty"`
+	// DetHash, when set, is what the determinism self-test compares instead
+	// of Sig+LogHash: the case executed plus the scheduler's decision log
+	// (at every step: who was runnable, who was released). Sig and LogHash
+	// of scheduled scenarios also hash the sites each task passed through;
+	// their order inside one task can follow Go map iteration order inside
+	// the library (a loop over a map with a synchronisation operation in
+	// its body), which no seam controls and which decides nothing.
+	DetHash string `json:"dethash,omitempty"`
 }
 
 func (r *Result) Count(k string, n int) {
